@@ -77,7 +77,7 @@ func checkC10(c *Ctx) {
 		}
 		found := false
 		ir.EachCall(fn, func(call ssa.CallInstruction) {
-			if strings.HasPrefix(ir.CallName(call), "(mcp.requestHandler).handleRequest") {
+			if c.isDispatchCall(call) {
 				found = true
 			}
 		})
@@ -187,7 +187,7 @@ func checkC10(c *Ctx) {
 	nDisp := 0
 	ir.EachInstr(post, func(_ *ssa.BasicBlock, _ int, in ssa.Instruction) {
 		call, ok := in.(*ssa.Call)
-		if !ok || !strings.HasPrefix(ir.CallName(call), "(mcp.requestHandler).handleRequest") {
+		if !ok || !c.isDispatchCall(call) {
 			return
 		}
 		nDisp++
@@ -260,15 +260,14 @@ func checkC10(c *Ctx) {
 		if !ok {
 			return
 		}
-		n := ir.CallName(call)
-		if !strings.HasSuffix(n, ").respond") {
+		if !isRespondCall(c, call) {
 			return
 		}
 		resp++
 		dominated := false
 		inGo := false
 		ir.EachInstr(post, func(_ *ssa.BasicBlock, _ int, d ssa.Instruction) {
-			if dc, ok := d.(*ssa.Call); ok && strings.HasPrefix(ir.CallName(dc), "(mcp.requestHandler).handleRequest") && flow.Dominates(dc, call) {
+			if dc, ok := d.(*ssa.Call); ok && c.isDispatchCall(dc) && flow.Dominates(dc, call) {
 				dominated = true
 			}
 		})
